@@ -15,6 +15,8 @@ use std::net::{IpAddr, Ipv4Addr, Ipv6Addr};
 use std::time::Duration;
 
 /// Three calls against a cache of `n` slots; `addrs` are the three client addresses.
+/// The slot a call used is *observed* (the slot that holds exactly this call's entry afterwards),
+/// not recomputed, so the hash function is evaluated only by the code under test.
 fn run_cache(n: usize, addrs: [IpAddr; 3], ts: [(i64, u32); 3], cutoff: Duration) -> Run {
     let mut cache = sh::CacheH::new(n);
     assert!(cache.len() == n, "cache has the configured number of slots");
@@ -23,11 +25,36 @@ fn run_cache(n: usize, addrs: [IpAddr; 3], ts: [(i64, u32); 3], cutoff: Duration
     let mut got = [true; 3];
     let mut i = 0;
     while i < 3 {
-        if n > 0 {
-            idx[i] = cache.index(&addrs[i]);
-            assert!(idx[i] < n, "slot index in range");
+        let t = stubs::make_instant(ts[i].0, ts[i].1);
+        // snapshot, call, find the slot that now holds (addr_i, t_i)
+        let mut before: [Option<(IpAddr, std::time::Instant)>; 4] = [None; 4];
+        let mut k = 0;
+        while k < n {
+            before[k] = cache.slot(k);
+            k += 1;
         }
-        got[i] = cache.is_allowed(addrs[i], stubs::make_instant(ts[i].0, ts[i].1), cutoff);
+        got[i] = cache.is_allowed(addrs[i], t, cutoff);
+        let entry = Some((addrs[i], t));
+        let mut changed = 0usize;
+        let mut holds = 0usize;
+        let mut k = 0;
+        while k < n {
+            let after = cache.slot(k);
+            if after != before[k] {
+                assert!(after == entry, "C20: the only change is recording this call's (address, arrival time)");
+                idx[i] = k;
+                changed += 1;
+            } else if after == entry && changed == 0 && holds == 0 {
+                // identical entry already there (same address, same instant): that is the slot
+                idx[i] = k;
+                holds += 1;
+            }
+            k += 1;
+        }
+        assert!(changed <= 1, "C20: a call touches at most one slot");
+        if n > 0 {
+            assert!(changed + holds >= 1, "C20: the call's (address, arrival time) is recorded");
+        }
         i += 1;
     }
 
@@ -41,7 +68,7 @@ fn run_cache(n: usize, addrs: [IpAddr; 3], ts: [(i64, u32); 3], cutoff: Duration
             if idx[j] == idx[i] {
                 prev = Some(j);
             }
-            if addrs[j] == addrs[i] {
+            if addrs[j] == addrs[i] && n > 0 {
                 assert!(idx[j] == idx[i], "the slot is a function of the address");
             }
             j += 1;
@@ -56,7 +83,6 @@ fn run_cache(n: usize, addrs: [IpAddr; 3], ts: [(i64, u32); 3], cutoff: Duration
         }
         i += 1;
     }
-
     Run { n, addrs, ts, cutoff, idx, got }
 }
 
@@ -115,11 +141,13 @@ fn any_cutoff() -> Duration {
 }
 
 #[cfg(kani)]
-fn cache_v4(n: usize) -> Run {
-    // symbolic SipHash keys, three symbolic IPv4 addresses
-    let k0: u64 = kani::any();
-    let k1: u64 = kani::any();
-    unsafe { stubs::HASH_K0 = k0; stubs::HASH_K1 = k1; }
+fn cache_v4(n: usize, symbolic_keys: bool) -> Run {
+    // three symbolic IPv4 addresses; SipHash keys symbolic or (0, 0)
+    if symbolic_keys {
+        let k0: u64 = kani::any();
+        let k1: u64 = kani::any();
+        unsafe { stubs::HASH_K0 = k0; stubs::HASH_K1 = k1; }
+    }
     let a: [[u8; 4]; 3] = kani::any();
     let ts = any_times();
     let cutoff = any_cutoff();
@@ -132,11 +160,13 @@ fn cache_v4(n: usize) -> Run {
 }
 
 #[cfg(kani)]
-fn cache_any_family(n: usize) -> Run {
-    // symbolic SipHash keys, three symbolic addresses of either family
-    let k0: u64 = kani::any();
-    let k1: u64 = kani::any();
-    unsafe { stubs::HASH_K0 = k0; stubs::HASH_K1 = k1; }
+fn cache_any_family(n: usize, symbolic_keys: bool) -> Run {
+    // three symbolic addresses of either family; SipHash keys symbolic or (0, 0)
+    if symbolic_keys {
+        let k0: u64 = kani::any();
+        let k1: u64 = kani::any();
+        unsafe { stubs::HASH_K0 = k0; stubs::HASH_K1 = k1; }
+    }
     let a: [[u8; 16]; 3] = kani::any();
     let fam: [bool; 3] = kani::any();
     let ts = any_times();
@@ -146,9 +176,20 @@ fn cache_any_family(n: usize) -> Run {
     run_cache(n, addrs, ts, cutoff)
 }
 
-harness! { #[kani::unwind(5)] fn c20_cache_n0() { let r = cache_v4(0); covers_n0(&r); } }
-harness! { #[kani::unwind(5)] fn c20_cache_n1() { let r = cache_v4(1); covers_n1(&r); } }
-harness! { #[kani::unwind(5)] fn c20_cache_n2() { let r = cache_v4(2); covers_n2plus(&r); } }
-harness! { #[kani::unwind(5)] fn c20_cache_n3() { let r = cache_v4(3); covers_n2plus(&r); } }
-harness! { #[kani::unwind(5)] fn c20_cache_v6_n2() { let r = cache_any_family(2); covers_n2plus(&r); } }
-harness! { #[kani::unwind(5)] fn c20_cache_v6_n3() { let r = cache_any_family(3); covers_n2plus(&r); } }
+/// `harness!` + the hash finalisation model (see `common::hasher_finish_model`).
+macro_rules! c20_harness {
+    ( fn $name:ident() $body:block ) => {
+        harness! {
+            #[kani::unwind(17)]
+            #[kani::stub(<std::hash::DefaultHasher as std::hash::Hasher>::finish, crate::common::hasher_finish_model)]
+            fn $name() $body
+        }
+    };
+}
+
+c20_harness! { fn c20_cache_n0() { let r = cache_v4(0, true); covers_n0(&r); } }
+c20_harness! { fn c20_cache_n1() { let r = cache_v4(1, true); covers_n1(&r); } }
+c20_harness! { fn c20_cache_n2() { let r = cache_v4(2, true); covers_n2plus(&r); } }
+c20_harness! { fn c20_cache_n3() { let r = cache_v4(3, true); covers_n2plus(&r); } }
+c20_harness! { fn c20_cache_v6_n2() { let r = cache_any_family(2, true); covers_n2plus(&r); } }
+c20_harness! { fn c20_cache_v6_n3() { let r = cache_any_family(3, true); covers_n2plus(&r); } }
